@@ -29,7 +29,11 @@ def mul : QPoly → QPoly → QPoly
   | a :: p, q => add (smul a q) (shift 1 (mul p q))
 
 def eval (p : QPoly) (x : Rat) : Rat := p.foldr (fun c acc => c + x * acc) 0
-def derivative (p : QPoly) : QPoly := (p.zipIdx.drop 1).map (fun c => (c.2 : Rat) * c.1)
+/-- coefficients k·c_k, (k+1)·c_{k+1}, … of the list read from index k -/
+def derivAux : Nat → QPoly → QPoly
+  | _, [] => []
+  | k, c :: p => ((k : Rat) * c) :: derivAux (k + 1) p
+def derivative (p : QPoly) : QPoly := derivAux 1 p.tail
 
 /-- division with remainder (b ≠ 0): returns (quotient, remainder) -/
 def divModLoop (b : QPoly) (db : Nat) (lb : Rat) : Nat → QPoly → QPoly → QPoly × QPoly
